@@ -536,15 +536,30 @@ def r7(ctx):
     ok = len(brks) == 1 and bool(top) and outer.body.index(top[0]) > outer.body.index(inner) and not inner_brk
     ctx.emit('C01-R7', ok, LOADER, brks[0] if brks else outer, 'cut-off `break` sits in the read loop after the per-strategy loop' if ok else 'cut-off is not placed after the per-strategy loop', key='cutoff-placement')
     pc = processed_counter(f)
+    # the reported counter may be a per-iteration copy of the counter that drives the loop (`processed = pairsObtained` right after `pairsObtained += 1`)
+    before0 = outer.body[:outer.body.index(inner)]
+    copies = [s for s in before0 if isinstance(s, ast.Assign) and len(s.targets) == 1 and src(s.targets[0]) == pc and isinstance(s.value, ast.Name)]
+    driver = None
+    if len(copies) == 1 and sum(1 for s in walk_no_nested(outer) if isinstance(s, (ast.Assign, ast.AugAssign)) and src(s.targets[0] if isinstance(s, ast.Assign) else s.target) == pc) == 1:
+        k_ = copies[0].value.id
+        kst = [s for s in before0[:before0.index(copies[0])] if isinstance(s, (ast.Assign, ast.AugAssign)) and src(s.targets[0] if isinstance(s, ast.Assign) else s.target) == k_]
+        init_pc = [s_ for s_ in f.body if isinstance(s_, ast.Assign) and src(s_.targets[0]) == pc and isinstance(s_.value, ast.Constant) and s_.value.value == 0 and s_.lineno <= outer.lineno]
+        if len(kst) == 1 and init_pc:
+            driver = k_
+    same = {pc: 'n'}
+    if driver:
+        same[driver] = 'n'
     if len(brks) == 1:
         t = reach_expr(outer.body[outer.body.index(inner) + 1:], brks[0])
-        okp = t is not None and pred_is(t, lambda e: e['max'] and e['n'] >= e['m'], {pc: 'n', 'maxReadPairs': 'm', 'maxReadPairs is not None': 'max', 'maxReadPairs is None': 'nomax'}, bools=['max'])
+        okp = t is not None and pred_is(t, lambda e: e['max'] and e['n'] >= e['m'], dict(same, **{'maxReadPairs': 'm', 'maxReadPairs is not None': 'max', 'maxReadPairs is None': 'nomax'}), bools=['max'])
         if t is not None and not okp:
             # spelled with `is None`
-            okp = pred_is(t, lambda e: (not e['nomax']) and e['n'] >= e['m'], {pc: 'n', 'maxReadPairs': 'm', 'maxReadPairs is None': 'nomax'}, bools=['nomax'])
+            okp = pred_is(t, lambda e: (not e['nomax']) and e['n'] >= e['m'], dict(same, **{'maxReadPairs': 'm', 'maxReadPairs is None': 'nomax'}), bools=['nomax'])
         ctx.emit('C01-R7', okp, LOADER, brks[0], f'cut-off condition `{src(t) if t is not None else None}` ' + ('== (limit given and processed >= limit)' if okp else 'differs from (limit given and processed >= limit)'), key='cutoff-predicate')
     # the processed counter counts the pairs read: before the per-strategy loop either `pc = <enumerate index> + 1` or `pc += 1` (initialised 0)
     before = outer.body[:outer.body.index(inner)]
+    if driver:
+        pc = driver          # the copy was checked above: the counting itself is done on the driving counter
     cnt = [s for s in before if isinstance(s, (ast.Assign, ast.AugAssign)) and src(s.targets[0] if isinstance(s, ast.Assign) else s.target) == pc]
     others = [s for s in walk_no_nested(outer) if isinstance(s, (ast.Assign, ast.AugAssign)) and src(s.targets[0] if isinstance(s, ast.Assign) else s.target) == pc and s not in cnt]
     ok = False
